@@ -22,4 +22,19 @@ PROPS = {
         "modelled": EXTERNAL,
         "assumptions": ["NoopNormalizer (identity) is the normalizer"],
     },
+    "C09": {
+        "suites": [("scope", 1500, 6000)],
+        "proved_scope": "for every tree, node, prefix, namespace, name: namespaces_in_scope enumerates exactly scopeSpec (nearest declaration wins; each prefix once; xmlns=\"\" absent; xml present) [C09_in_scope]; namespace_for_prefix = scopeSpec with bindings to the no-namespace id hidden [C09_ns_for_prefix, _partial, _false]; is_prefix_defined implied by a binding; prefix_for_namespace sound for real namespaces [C09_prefix_sound]; complete exactly when no prefix is declared twice among the declarations visited until the first binding [C09_prefix_complete_partial, C09_prefix_guard_exact] and false in general [C09_prefix_complete_false, closed witness]; full_name spells name_ref's prefix; the reported prefix resolves back by the rule for the node's kind outside the two defects [C09_fullname_element_partial, _attribute_partial, _false_attribute, _false_element]; node_name_ref = node_name + name_ref; inherited_prefixes is a subset of the parent's scope; FullnameSerializer top frame = nearest-declaration bindings of the pushed frames given unique prefixes per element [C09_stack_invariant]",
+        "not_proved": "C09_unresolved / C09_inherited exactness (which namespaces unresolved_namespaces reports, beyond inherited_prefixes being a subset of the parent's scope): modelled and correspondence-checked only; the link from the FStack invariant to the xml/html serialisers belongs to C10",
+        "modelled": EXTERNAL,
+        "assumptions": ["ids of the built-in prefixes / namespaces as registered by Xot::new (empty prefix 0, xml prefix 1, no namespace 0, XML namespace 1)",
+                        "hash-set / hash-map results (prefix_for_namespace's seen set, Prefixes) modelled as lists; inherited_prefixes compared sorted"],
+    },
+    "C15": {
+        "suites": [("scope", 1500, 6000)],
+        "proved_scope": "for every tree, node and vocabulary: deduplicate_namespaces only deletes namespace-node children: per node the declarations after are a sublist of those before [C15_subset, C15_same_nodes], the tree without namespace nodes is unchanged [C15_frame]; 'second call removes nothing' and 'still serialises' are false as written [C15_idem_false, C15_serialises_false, closed witnesses evaluated in the model; the model of to_string's MissingPrefix outcome is correspondence-checked by the `scope writable` requests]",
+        "not_proved": "C15_serialises_partial (a guard under which dedup keeps every name writable, e.g. no prefix redeclared anywhere below the deduplicated node) and C15_idem_partial: need an invariant over the traversal fold (FullnameSerializer stack + DeduplicateTracker); reparse equality needs the serialiser / parser layers (C01, C10)",
+        "modelled": EXTERNAL,
+        "assumptions": ["removing a namespace node never triggers text consolidation (its siblings of the same category are namespace nodes): read off Xot::remove / previous_sibling / next_sibling"],
+    },
 }
